@@ -69,6 +69,24 @@ pub fn ref_prove<G: AffineRepr>(
     st: &Statement,
     nonces: &dyn Fn(usize, usize) -> Option<Nonces<G::ScalarField>>,
 ) -> Option<RefProved<G>> {
+    ref_prove_adv::<G>(st, nonces, None)
+}
+
+/// Adversarial variant: `moves = [m_I, m_O, m_S]` moves the mass `m * D` (D a fixed
+/// point unrelated to the witness) from the first-phase commitment to its
+/// second-phase counterpart BEFORE either is absorbed, i.e. sends
+/// (A_I1 - m_I D, A_I2 + m_I D), (A_O1 - m_O D, A_O2 + m_O D), (S1 - m_S D, S2 + m_S D)
+/// and computes everything else honestly from the resulting transcript.  The two
+/// members of each pair enter the opening relation with the same power of x and
+/// differ only by the factor u, which is not known when they are sent: a correct
+/// verifier rejects (relation (c) is off by x^k (u - 1) m D), a verifier whose
+/// coefficient of the second-phase point degenerates to that of the first-phase
+/// point for some circuit shape accepts.
+pub fn ref_prove_adv<G: AffineRepr>(
+    st: &Statement,
+    nonces: &dyn Fn(usize, usize) -> Option<Nonces<G::ScalarField>>,
+    moves: Option<[G::ScalarField; 3]>,
+) -> Option<RefProved<G>> {
     type Fr<G> = <G as AffineRepr>::ScalarField;
     let (bb, bbl) = bases_for::<G>(&st.bases);
     let mut rt = RefTranscript::new(TLABELS[st.tlabel]);
@@ -122,6 +140,12 @@ pub fn ref_prove<G: AffineRepr>(
         s1 += g1[i].into_group() * nz1.s_l1[i] + h1[i].into_group() * nz1.s_r1[i];
     }
     let _ = msm;
+    let mass: G::Group = g1[0].into_group() * Fr::<G>::from(7u64) + h1[0].into_group() * Fr::<G>::from(11u64) + bbl.into_group() * Fr::<G>::from(3u64);
+    if let Some(m) = &moves {
+        a_i1 -= mass * m[0];
+        a_o1 -= mass * m[1];
+        s1 -= mass * m[2];
+    }
     let (a_i1, a_o1, s1) = (a_i1.into_affine(), a_o1.into_affine(), s1.into_affine());
     rt.append_point(b"A_I1", &a_i1);
     rt.append_point(b"A_O1", &a_o1);
@@ -162,6 +186,10 @@ pub fn ref_prove<G: AffineRepr>(
         (ai.into_affine(), ao.into_affine(), s.into_affine())
     } else {
         (G::zero(), G::zero(), G::zero())
+    };
+    let (a_i2, a_o2, s2) = match &moves {
+        Some(m) => ((a_i2.into_group() + mass * m[0]).into_affine(), (a_o2.into_group() + mass * m[1]).into_affine(), (s2.into_group() + mass * m[2]).into_affine()),
+        None => (a_i2, a_o2, s2),
     };
     rt.append_point(b"A_I2", &a_i2);
     rt.append_point(b"A_O2", &a_o2);
